@@ -44,6 +44,14 @@ pub struct ScriptedMatcher {
     desync: std::rc::Rc<std::cell::Cell<Option<(usize, usize, usize)>>>,
 }
 
+impl ScriptedMatcher {
+    /// (matcher, cell that is set when the compressor breaks the matcher protocol)
+    pub fn new(script: std::rc::Rc<Script>) -> (ScriptedMatcher, std::rc::Rc<std::cell::Cell<Option<(usize, usize, usize)>>>) {
+        let desync = std::rc::Rc::new(std::cell::Cell::new(None));
+        (ScriptedMatcher { script, idx: 0, last: vec![], desync: desync.clone() }, desync)
+    }
+}
+
 impl Matcher for ScriptedMatcher {
     fn get_next_space(&mut self) -> Vec<u8> {
         // the space length is the block length; past the script a 1-byte space lets the
